@@ -3,6 +3,9 @@
    the build-tag regex + int(), rpartition), WheelModel.parse_tag / mk_tag / tag_eq / tag_str (tags.parse_tag, Tag.__init__/__eq__/__str__).
    The version part reuses the version model of C01/C02 (SpecModel.Version, vstr).
    Encoders: WheelLaws.wheel_name / escape (binary-distribution spec), p ++ "-" ++ version ++ ext (source-distribution spec).
+   Non-ASCII text: the model is exact on every string of code points - str.lower() (Tag fields, canonicalize_name) is NamesX.lower_full /
+   canon_full (the interpreter's full table and the Final_Sigma rule), \w and \d / int() are the generated range tables of Gen/WordTable.v;
+   all of them are re-validated against the running interpreter for every code point on every run (law.n.lowertable, law.f.tables).
    Domain of the round trips: project names over ASCII letters, digits and -_. (escaped with or without lower-casing); any version text
    without '-' that Version() accepts, in particular str(v); build (number, suffix) with a suffix free of '-' that does not start
    with a digit; non-empty lists of tag parts free of '-' and '.'.  Outside it the encoding is not injective (12 + "3x" = 123 + "x").
@@ -10,7 +13,7 @@
    This file holds statements only. *)
 From Coq Require Import List Arith NArith Bool Lia.
 Import ListNotations.
-Require Import S1 VParse VDec Py VMeaning SpecModel CanonLaws Names NamesSpec NamesLaws WheelModel Wheel WheelLaws.
+Require Import S1 VParse VDec Py VMeaning SpecModel CanonLaws Names NamesSpec NamesLaws NamesX NamesLowerFull WheelModel Wheel WheelLaws WheelMore.
 Open Scope N_scope.
 
 (* 0. complete characterisation: on every text of the shape a-b(-c)?-d-e-f.whl the parser answers component-wise as wheel_spec says *)
@@ -21,15 +24,15 @@ Print Assumptions C14_wheel_decomposition.
 (* 1. wheel round trip, for any escaped spelling p of the project name that passes the name check *)
 Theorem C14_wheel_roundtrip p vtxt v b pys abis plats :
   name_ok p -> nochar dash vtxt = true -> Version vtxt = Some v -> build_ok b -> parts_ok pys -> parts_ok abis -> parts_ok plats ->
-  parse_wheel (wheel_name p vtxt b pys abis plats) = FOk (canon_name p, v, b, tag_product pys abis plats).
+  parse_wheel (wheel_name p vtxt b pys abis plats) = FOk (canon_full p, v, b, tag_product pys abis plats).
 Proof. exact (wheel_roundtrip p vtxt v b pys abis plats). Qed.
 Print Assumptions C14_wheel_roundtrip.
 
 (* 1b. the statement's form: name n escaped per the binary-distribution spec (lower-cased or not), the version written as str(v) *)
 Theorem C14_wheel_roundtrip_spec (n : list N) (lower : bool) v b pys abis plats :
   forallb is_cls n = true -> VMeaning.wf_version v -> build_ok b -> parts_ok pys -> parts_ok abis -> parts_ok plats ->
-  parse_wheel (wheel_name (if lower then py_lower (escape n) else escape n) (vstr v) b pys abis plats)
-  = FOk (canon_name n, v, b, tag_product pys abis plats).
+  parse_wheel (wheel_name (if lower then lower_full (escape n) else escape n) (vstr v) b pys abis plats)
+  = FOk (canon_full n, v, b, tag_product pys abis plats).
 Proof.
   intros Hn Wv B P1 P2 P3. rewrite wheel_roundtrip with (v := v); auto using vstr_nodash, Version_vstr.
   - destruct lower; now rewrite ?canon_escape_lower, ?canon_escape.
@@ -45,11 +48,11 @@ Print Assumptions C14_tags_are_the_product.
 
 (* 2. sdist round trip; the name part may be any text (legacy names with dashes included), the extension .tar.gz or .zip *)
 Theorem C14_sdist_roundtrip p vtxt v ext : nochar dash vtxt = true -> Version vtxt = Some v -> (ext = w_targz \/ ext = w_zip) ->
-  parse_sdist (p ++ dash :: vtxt ++ ext) = FOk (canon_name p, v).
+  parse_sdist (p ++ dash :: vtxt ++ ext) = FOk (canon_full p, v).
 Proof. intros H E X. rewrite parse_sdist_encode by assumption. now rewrite E. Qed.
 Print Assumptions C14_sdist_roundtrip.
 Theorem C14_sdist_roundtrip_spec (n : list N) (lower : bool) v ext : VMeaning.wf_version v -> (ext = w_targz \/ ext = w_zip) ->
-  parse_sdist ((if lower then py_lower (escape n) else escape n) ++ dash :: vstr v ++ ext) = FOk (canon_name n, v).
+  parse_sdist ((if lower then lower_full (escape n) else escape n) ++ dash :: vstr v ++ ext) = FOk (canon_full n, v).
 Proof.
   intros W X. rewrite C14_sdist_roundtrip with (v := v); auto using vstr_nodash, Version_vstr.
   destruct lower; now rewrite ?canon_escape_lower, ?canon_escape.
@@ -73,12 +76,12 @@ Print Assumptions C14_parse_tag_defined.
 (* 4. Tag fields are case-insensitive: == (whatever the stored hash function) is equality of the lower-cased triples,
       the stored fields are already lower case, and upper-casing any ASCII letters of the arguments gives the same tag *)
 Theorem C14_tag_case_insensitive h i a p i' a' p' :
-  tag_eq h (mk_tag i a p) (mk_tag i' a' p') = true <-> py_lower i = py_lower i' /\ py_lower a = py_lower a' /\ py_lower p = py_lower p'.
+  tag_eq h (mk_tag i a p) (mk_tag i' a' p') = true <-> lower_full i = lower_full i' /\ lower_full a = lower_full a' /\ lower_full p = lower_full p'.
 Proof. rewrite tag_eq_iff. apply mk_tag_eq_iff. Qed.
 Print Assumptions C14_tag_case_insensitive.
 Theorem C14_tag_fields_normalised i a p :
   let t := mk_tag i a p in mk_tag (t_interp t) (t_abi t) (t_plat t) = t /\ mk_tag (map upper_a i) (map upper_a a) (map upper_a p) = t.
-Proof. split; [apply mk_tag_fields|]. unfold mk_tag. now rewrite !py_lower_upper. Qed.
+Proof. split; [apply mk_tag_fields|apply mk_tag_upper]. Qed.
 Print Assumptions C14_tag_fields_normalised.
 
 (* 5. rejections, each with the documented exception (FErr) *)
@@ -110,6 +113,59 @@ Proof.
 Qed.
 Print Assumptions C14_sdist_rejects.
 
+(* 5b. the rejections above are exhaustive: every text that passes the extension and part-count tests is encode w of a well-formed w ... *)
+Theorem C14_decode_exists fn : ends_with w_whl fn = true ->
+  (count_c dash (drop_last 4 fn) = 4 \/ count_c dash (drop_last 4 fn) = 5)%nat -> exists w, wf_wheel w /\ fn = encode w.
+Proof. exact (decode_exists fn). Qed.
+Print Assumptions C14_decode_exists.
+(* ... so parse_wheel_filename rejects EXACTLY: wrong extension, wrong number of parts, a name failing the name check, an invalid version,
+   a build tag not starting with a \d digit *)
+Theorem C14_rejects_exactly fn : parse_wheel fn = FErr <->
+  ends_with w_whl fn = false \/
+  (count_c dash (drop_last 4 fn) <> 4 /\ count_c dash (drop_last 4 fn) <> 5)%nat \/
+  exists w, wf_wheel w /\ fn = encode w /\
+    (name_bad (w_name w) = true \/ Version (w_ver w) = None \/ exists b, w_build w = Some b /\ hd_is is_d b = false).
+Proof. exact (reject_iff fn). Qed.
+Print Assumptions C14_rejects_exactly.
+(* the name check, exactly: "__" or a character outside \w and '.'.  It does NOT require an escaped name: "foo.bar", "._.", "" and
+   upper case pass (WheelMore.unescaped_accepted_check); the statement's "non-escaped project name" is read as this check. *)
+Theorem C14_name_check_exact n : name_bad n = true <-> (exists a b, n = a ++ 95 :: 95 :: b) \/ (exists c, In c n /\ name_char c = false).
+Proof. exact (name_bad_iff n). Qed.
+Print Assumptions C14_name_check_exact.
+(* 5c. accepted implies well-formed: an accepted filename is the encoding of components that answer as wheel_spec says *)
+Theorem C14_accept_inv fn r : parse_wheel fn = FOk r -> exists w, wf_wheel w /\ fn = encode w /\ wheel_spec w = FOk r.
+Proof. exact (accept_inv fn r). Qed.
+Print Assumptions C14_accept_inv.
+Theorem C14_accept_components w r : wf_wheel w -> parse_wheel (encode w) = FOk r ->
+  name_bad (w_name w) = false /\ (exists v, Version (w_ver w) = Some v /\
+    exists bt, r = (canon_full (w_name w), v, bt, tag_product (split_all 46 (w_py w)) (split_all 46 (w_abi w)) (split_all 46 (w_plat w))) /\
+               match w_build w with None => bt = None | Some b => exists k, build_of b = Some k /\ bt = Some k end).
+Proof. exact (accept_components w r). Qed.
+Print Assumptions C14_accept_components.
+
+(* 1d. the build tag as text: any non-empty run of \d digits (leading zeros, non-ASCII decimal digits) followed by a suffix that does not
+       start with a \d digit is read as (int(run), suffix); for ASCII digits int is the decimal value ("007x" -> (7, "x")) *)
+Theorem C14_wheel_roundtrip_build_text p vtxt v b pys abis plats :
+  name_ok p -> nochar dash vtxt = true -> Version vtxt = Some v -> build_ok_t b -> parts_ok pys -> parts_ok abis -> parts_ok plats ->
+  parse_wheel (wheel_name_t p vtxt b pys abis plats)
+  = FOk (canon_full p, v, option_map (fun b => (int_of (fst b), snd b)) b, tag_product pys abis plats).
+Proof. exact (wheel_roundtrip_text p vtxt v b pys abis plats). Qed.
+Print Assumptions C14_wheel_roundtrip_build_text.
+Theorem C14_build_text_ascii ds rest : ds <> [] -> forallb is_digit ds = true -> hd_is is_d rest = false ->
+  build_of (ds ++ rest) = Some (num ds, rest) /\ int_of ds = num ds.
+Proof. intros NE D R. split; [now apply build_of_ascii_text|apply (ascii_digits_d ds D)]. Qed.
+Print Assumptions C14_build_text_ascii.
+
+(* 4b. case-insensitivity through the parsers: ASCII-upper-casing the tag text gives the same tag set / the same wheel result *)
+Theorem C14_parse_tag_upper s : parse_tag (map upper_a s) = parse_tag s.
+Proof. exact (parse_tag_upper s). Qed.
+Print Assumptions C14_parse_tag_upper.
+Theorem C14_parse_wheel_upper_tags w : wf_wheel w -> parse_wheel (encode (upper_tags w)) = parse_wheel (encode w).
+Proof. exact (parse_wheel_upper_tags w). Qed.
+Print Assumptions C14_parse_wheel_upper_tags.
+(* 3b. the restriction of C14_parse_tag_str to fields without '-' and '.' is necessary: Tag("a.b","c","d") prints as a two-member set,
+       Tag("a-b","c","d") prints as text that parse_tag cannot unpack (closed computation WheelMore.tag_str_check) *)
+
 (* 6. nothing else can happen: the parsers return a value or raise their documented exception (no unpacking / index failure is reachable) *)
 Theorem C14_only_documented_errors fn :
   (parse_wheel fn = FErr \/ exists r, parse_wheel fn = FOk r) /\ (parse_sdist fn = FErr \/ exists r, parse_sdist fn = FOk r).
@@ -120,14 +176,16 @@ Print Assumptions C14_only_documented_errors.
 Example C14_nonvacuous :
   let v := {| epoch := 1; release := [2; 0]; pre := Some (w_rc, 1); post := None; dev := None; local := Some [inr [97; 98]; inl 5] |} in
   let n := [70; 111; 111; 46; 66; 97; 114] in
-  let fn := wheel_name (py_lower (escape n)) (vstr v) (Some (7, [120])) [[112; 121; 50]; [80; 89; 51]] [[110; 111; 110; 101]] [[97; 110; 121]] in
+  let fn := wheel_name (lower_full (escape n)) (vstr v) (Some (7, [120])) [[112; 121; 50]; [80; 89; 51]] [[110; 111; 110; 101]] [[97; 110; 121]] in
   fn = [102;111;111;95;98;97;114;45;49;33;50;46;48;114;99;49;43;97;98;46;53;45;55;120;45;112;121;50;46;80;89;51;45;110;111;110;101;45;97;110;121;46;119;104;108]
   /\ parse_wheel fn = FOk ([102;111;111;45;98;97;114], v, Some (7, [120]),
                            [mk_tag [112;121;50] [110;111;110;101] [97;110;121]; mk_tag [112;121;51] [110;111;110;101] [97;110;121]])
   /\ VMeaning.wf_version v /\ build_ok (Some (7, [120])) /\ parts_ok [[112; 121; 50]; [80; 89; 51]]
-  /\ parse_wheel [102;111;111;32;45;49;45;97;45;98;45;99;46;119;104;108] = FErr.
+  /\ parse_wheel [102;111;111;32;45;49;45;97;45;98;45;99;46;119;104;108] = FErr
+  /\ unescaped_accepted_check = true /\ build_text_check = true /\ tag_str_check = true /\ lower_full_check = true.
 Proof.
   cbv zeta. split; [vm_compute; reflexivity|]. split; [vm_compute; reflexivity|]. split.
   - repeat split; try discriminate; cbn; auto.
-  - split; [repeat split|]. split; [split; [discriminate|repeat constructor]|vm_compute; reflexivity].
+  - split; [repeat split|]. split; [split; [discriminate|repeat constructor]|]. split; [vm_compute; reflexivity|].
+    split; [exact unescaped_accepted_ok|]. split; [exact build_text_ok|]. split; [exact tag_str_check_ok|exact lower_full_check_ok].
 Qed.
